@@ -1,4 +1,3 @@
-import itertools
 import warnings
 from copy import copy
 from typing import Any, Optional, Union, Tuple as TypedTuple, List
@@ -679,7 +678,13 @@ class PostgreSQLQueryBuilder(QueryBuilder):
                 raise QueryException("Returning can't be used in this query")
 
             table_is_insert_or_update_table = field.table in {self._insert_table, self._update_table}
-            join_tables = set(itertools.chain.from_iterable([j.criterion.tables_ for j in self._joins]))
+            # the joined table itself and the tables its criterion names (USING and CROSS joins have no criterion)
+            join_tables = set()
+            for j in self._joins:
+                if isinstance(j.item, Table):
+                    join_tables.add(j.item)
+                if getattr(j, "criterion", None) is not None:
+                    join_tables |= j.criterion.tables_
             join_and_base_tables = set(self._from) | join_tables
             table_not_base_or_join = isinstance(field.table, Table) and field.table not in join_and_base_tables
             if not table_is_insert_or_update_table and table_not_base_or_join:
